@@ -228,7 +228,7 @@ pub fn case_s() -> BoxedStrategy<DCase> {
         proptest::collection::vec(any::<u8>(), 32),
         prop_oneof![7 => Just(true), 3 => Just(false)],
         // one case in six: a definition (whatever kind comes next) laid across the end of the 1 MiB space
-        proptest::option::weighted(0.17, (proptest::sample::select(vec![(0xFFFFu16, 16u16), (0xFFFE, 32), (0xFFF0, 256), (0xF001, 65520)]), 1u16..12, any::<u16>())),
+        proptest::option::weighted(0.17, (proptest::sample::select(vec![(0xFFFFu16, 16u16), (0xFFFE, 32), (0xFFF0, 256), (0xF001, 65520)]), 0u16..12, any::<u16>())),
     )
         .prop_map(|(decls, steer, tail_label, choices, small, wrap)| {
             let mut used = std::collections::HashSet::new();
@@ -582,6 +582,10 @@ fn boundary_family() -> Vec<(String, DCase)> {
     v.push(("set-resets-then-over".into(), vec![z(65535), DataDecl::Set(0x2000), z(65535), z(5), lab("after", false, DataKind::Val(9))]));
     // high segment: data wraps the 1 MiB space
     v.push(("wraps-1MiB".into(), vec![DataDecl::Set(0xFFFF), lab("w", true, DataKind::Fill(0xA1B2, 20)), lab("after", false, DataKind::Val(9))]));
+    // a definition whose FIRST byte lies exactly at 2^20 (= physical address 0)
+    for (k, kind) in [DataKind::Val(0x77), DataKind::Str("at the top".into()), DataKind::Fill(0x33, 4)].into_iter().enumerate() {
+        v.push((format!("starts-at-1MiB-kind{}", k), vec![DataDecl::Set(0xFFFF), z(16), lab("w", k == 2, kind), lab("after", false, DataKind::Val(9))]));
+    }
     for (k, kind) in [DataKind::Str("string across the top".into()), DataKind::Fill(0x5A, 20), DataKind::Zeros(20), DataKind::Val(0xBEEF)].into_iter().enumerate() {
         for word in [false, true] {
             let kind = match (&kind, word) {
